@@ -352,7 +352,11 @@ func c14(ctx *run.Ctx) {
 	}
 	for si, ns := range all {
 		ns := ns
-		for _, n := range []int{ns.Warm + 1, ns.Warm + 2, 2*ns.Warm + 9, 251} {
+		lens := []int{ns.Warm + 1, ns.Warm + 2, 2*ns.Warm + 9, 251}
+		if si%9 == 4 {
+			lens = append(lens, 640) // several years of daily bars
+		}
+		for _, n := range lens {
 			n := n
 			if n <= ns.Warm {
 				continue
